@@ -27,6 +27,7 @@ import (
 	pb "github.com/refraction-networking/conjure/proto"
 	log "github.com/sirupsen/logrus"
 	"google.golang.org/protobuf/proto"
+	"google.golang.org/protobuf/types/known/anypb"
 )
 
 type c13Sender struct{ msgs [][]byte }
@@ -94,8 +95,17 @@ func c13Wrapper(kind string, i int) *pb.C2SWrapper {
 	}
 	t := pb.TransportType_Min
 	covert := "1.2.3.4:1234"
-	v4 := kind == "4" || kind == "d"
-	v6 := kind == "6" || kind == "d"
+	// kinds "u" (a transport the registrar does not know) and "p" (transport parameters that do not parse) are
+	// dual-stack requests that fail after both selections: error paths that return with the read lock taken
+	v4 := kind == "4" || kind == "d" || kind == "u" || kind == "p"
+	v6 := kind == "6" || kind == "d" || kind == "u" || kind == "p"
+	var params *anypb.Any
+	switch kind {
+	case "u":
+		t = pb.TransportType_Obfs4
+	case "p":
+		params = &anypb.Any{TypeUrl: "type.googleapis.com/proto.GenericTransportParams", Value: []byte{0xff, 0xff, 0xff}}
+	}
 	return &pb.C2SWrapper{
 		SharedSecret: secret,
 		RegistrationPayload: &pb.ClientToStation{
@@ -105,6 +115,7 @@ func c13Wrapper(kind string, i int) *pb.C2SWrapper {
 			V4Support:           &v4,
 			V6Support:           &v6,
 			ClientLibVersion:    proto.Uint32(core.CurrentClientLibraryVersion()),
+			TransportParams:     params,
 		},
 	}
 }
@@ -246,6 +257,12 @@ func VerifC13Main() {
 			for i, r := range reqs {
 				if r.ret && r.err != nil && errPath && r.kind != "4" {
 					continue // set C cannot serve an IPv6 phantom: an error answer is the complete outcome under that set
+				}
+				if r.kind == "u" || r.kind == "p" {
+					if !r.ret || r.err == nil {
+						return &vsched.Violation{Key: "invalid-request-answered", What: fmt.Sprintf("request %d (%s): ret=%v err=%v", i, r.kind, r.ret, r.err)}
+					}
+					continue
 				}
 				if !r.ret || r.err != nil || r.resp == nil {
 					return &vsched.Violation{Key: "request-failed", What: fmt.Sprintf("request %d (%s) did not complete: ret=%v err=%v", i, r.kind, r.ret, r.err)}
